@@ -23,6 +23,18 @@ def _opt(v):
     return None if v == NONE else v / UDB
 
 
+def _operational(u):
+    op = {}
+    if u['gain'] != NONE:
+        op['gain_target'] = u['gain'] / UDB
+        op['tilt_target'] = 0
+    if u['dp'] != NONE:
+        op['delta_p'] = u['dp'] / UDB
+    if u['voa'] != NONE:
+        op['out_voa'] = u['voa'] / UDB
+    return op
+
+
 # ------------------------------------------------------------------------------------------- TLC case -> real inputs
 def render_topology(case):
     """abstract input graph emitted by MC_DesignStructure.Emit -> legacy topology JSON"""
@@ -60,16 +72,17 @@ def render_topology(case):
             u = e['u'][0]
             if u['variety']:
                 d['type_variety'] = u['variety']
-            op = {}
-            if u['gain'] != NONE:
-                op['gain_target'] = u['gain'] / UDB
-                op['tilt_target'] = 0
-            if u['dp'] != NONE:
-                op['delta_p'] = u['dp'] / UDB
-            if u['voa'] != NONE:
-                op['out_voa'] = u['voa'] / UDB
+            op = _operational(u)
             if op:
                 d['operational'] = op
+        elif t == 'Multiband_amplifier':                      # user multiband site: undescribed, or one entry per band
+            if e['v']:
+                d['type_variety'] = e['v']
+            if e['u']:
+                d['amplifiers'] = [{'type_variety': u['variety'], 'operational': _operational(u)} for u in e['u']]
+        if t == 'Roadm' and case['s'].get('bands', 1) == 2:       # C + a narrow L design band on every degree
+            d.setdefault('params', {})['design_bands'] = [
+                {'f_min': 191.3e12, 'f_max': 196.0e12, 'spacing': 50e9}, {'f_min': 187.4e12, 'f_max': 190.0e12, 'spacing': 50e9}]
         els.append(d)
     for e in g:
         for j in e['s']:
@@ -100,10 +113,16 @@ def equipment_base(library='example-data'):
     (call it before forking workers)"""
     if library not in _BASE_EQ:
         import gnpy.tools.json_io as jio
-        d = copy.deepcopy(_other_eqpt() if library == 'tests-data' else _base_eqpt())
+        d = copy.deepcopy(_other_eqpt() if library == 'tests-data' else
+                          json.loads((TD / 'eqpt_config_multiband.json').read_text()) if library == 'multiband' else
+                          _base_eqpt())
         for a in d['Edfa']:                                    # exercise the automatic output-VOA optimisation
             if a['type_variety'] in ('std_low_gain', 'std_medium_gain'):
                 a['out_voa_auto'] = True
+            if library == 'multiband':
+                # this test library freezes the power rule (delta_power_range_db [0, 0, 0.5]); use the range of the example
+                # libraries so that the designed delta_p follows the span loss
+                d['Span'][0]['delta_power_range_db'] = [-2, 3, 0.5]
             if library == 'variant' and a['type_variety'] == 'std_low_gain':
                 # a library with the same amplifier names in which one model is much noisier (another vendor's data)
                 a['nf_min'], a['nf_max'] = a['nf_min'] + 4, a['nf_max'] + 4
@@ -116,13 +135,20 @@ def equipment_for(s, library='example-data'):
     carry the case's values (what loading the modified eqpt_config JSON gives)"""
     band = tuple(s.get('siBand') or ())
     units = s.get('lenUnits', 'km')
-    key = (s['padding'], s['eol'], s['maxLen'], s['powerMode'], s['conIn'], s['conOut'], band, units, library)
+    if s.get('bands', 1) == 2 and library == 'example-data':
+        library, band = 'multiband', ()       # C+L cases: tests/data/eqpt_config_multiband.json with its own SI band
+    power = s.get('power', 0)
+    key = (s['padding'], s['eol'], s['maxLen'], s['powerMode'], s['conIn'], s['conOut'], band, units, library, power)
     if key not in _EQ_CACHE:
         eq = copy.deepcopy(equipment_base(library))
         sp = eq['Span']['default']
         sp.padding, sp.EOL = s['padding'] / UDB, s['eol'] / UDB
         sp.max_length, sp.length_units = (s['maxLen'] if units == 'm' else s['maxLen'] / 1000), units
         sp.power_mode, sp.con_in, sp.con_out = bool(s['powerMode']), s['conIn'] / UDB, s['conOut'] / UDB
+        if power:                                              # design power (reference channel power) in 0.1 dBm
+            eq['SI']['default'].power_dbm = power / 10
+            if eq['SI']['default'].tx_power_dbm is not None:
+                eq['SI']['default'].tx_power_dbm = power / 10
         if band:                                               # SI / design band in MHz
             eq['SI']['default'].f_min, eq['SI']['default'].f_max = band[0] * 1e6, band[1] * 1e6
         _EQ_CACHE[key] = eq
@@ -372,3 +398,43 @@ def reference_propagation(net, req, equipment, src=None, dst=None):
         vec += [clip(float(si.pmd[k]) * 1e18) for k in pick] + [clip(float(si.chromatic_dispersion[k]) * 1e6) for k in pick] + \
                [clip(float(si.latency[k]) * 1e9) for k in pick] + [udb(float(si.pdl[k])) for k in pick]
     return vec, (path[0].uid, path[-1].uid, len(path))
+
+
+# ------------------------------------------------------------------------------ designs in other interpreter processes
+def twin_main():
+    """entry point of a fresh interpreter (started with its own PYTHONHASHSEED): reads a JSON list of TLC cases on stdin,
+    designs each with the real code and prints the list of exported documents (or {"error": ...})"""
+    import sys
+    from gnpy.tools.json_io import network_to_json
+    out = []
+    for c in json.load(sys.stdin):
+        try:
+            _, _, net, _, _ = design(render_topology(c), equipment_for(c['s']),
+                                     no_insert_edfas=not c['s'].get('insert', True))
+            out.append(json.loads(json.dumps(network_to_json(net))))
+        except Exception as e:                                   # noqa
+            out.append({'error': exc_text(e)[0]})
+    sys.stdout.write('TWIN-RESULT ' + json.dumps(out) + '\n')
+
+
+def designs_in_fresh_interpreters(cases, hash_seeds):
+    """{seed: [export per case]}: every seed is one new python process (PYTHONHASHSEED = seed) designing all the cases"""
+    import os
+    import subprocess
+    import sys
+    from harness.core import Machinery
+    procs = {}
+    for seed in hash_seeds:
+        env = dict(os.environ, PYTHONHASHSEED=str(seed))
+        procs[seed] = subprocess.Popen([sys.executable, '-c', 'from harness.design_util import twin_main; twin_main()'],
+                                       stdin=subprocess.PIPE, stdout=subprocess.PIPE, stderr=subprocess.PIPE, env=env,
+                                       text=True, cwd=str(Path(__file__).resolve().parent.parent))
+    res = {}
+    data = json.dumps(cases)
+    for seed, p in procs.items():
+        out, err = p.communicate(data, timeout=1800)
+        line = next((ln for ln in out.splitlines() if ln.startswith('TWIN-RESULT ')), None)
+        if line is None:
+            raise Machinery(f'interpreter with PYTHONHASHSEED={seed} gave no result: {err[-1500:]}')
+        res[seed] = json.loads(line[len('TWIN-RESULT '):])
+    return res
